@@ -45,6 +45,14 @@ namespace detail
 		GLM_FUNC_QUALIFIER vec<4, T, Q> operator ()()  const { return vec<4, T, Q>(this->elem(E0), this->elem(E1), this->elem(E2), this->elem(E3)); }
 	};
 
+	// The SIMD versions of _swizzle_base1 load 16 bytes from the swizzled vector. Its length is not known here, only the
+	// indices of the selected components: storage of 16 bytes is guaranteed as soon as one of them is z or w.
+	template<qualifier Q, int E0, int E1, int E2, int E3>
+	struct _swizzle_use_simd
+	{
+		enum { value = detail::is_aligned<Q>::value && (E0 > 1 || E1 > 1 || E2 > 1 || E3 > 1) };
+	};
+
 	// Internal class for implementing swizzle operators
 	/*
 		Template parameters:
@@ -57,7 +65,7 @@ namespace detail
 			containing duplicate elements so that they cannot be used as r-values).
 	*/
 	template<int N, typename T, qualifier Q, int E0, int E1, int E2, int E3, int DUPLICATE_ELEMENTS>
-	struct _swizzle_base2 : public _swizzle_base1<N, T, Q, E0,E1,E2,E3, detail::is_aligned<Q>::value>
+	struct _swizzle_base2 : public _swizzle_base1<N, T, Q, E0,E1,E2,E3, _swizzle_use_simd<Q, E0,E1,E2,E3>::value>
 	{
 		struct op_equal
 		{
@@ -146,7 +154,7 @@ namespace detail
 
 	// Specialization for swizzles containing duplicate elements.  These cannot be modified.
 	template<int N, typename T, qualifier Q, int E0, int E1, int E2, int E3>
-	struct _swizzle_base2<N, T, Q, E0,E1,E2,E3, 1> : public _swizzle_base1<N, T, Q, E0,E1,E2,E3, detail::is_aligned<Q>::value>
+	struct _swizzle_base2<N, T, Q, E0,E1,E2,E3, 1> : public _swizzle_base1<N, T, Q, E0,E1,E2,E3, _swizzle_use_simd<Q, E0,E1,E2,E3>::value>
 	{
 		struct Stub {};
 
